@@ -192,6 +192,17 @@ func genVariantsAs(e *emitter, r *rng, n int, as string) {
 	}
 }
 
+// hugeXRVariant: an RFC-valid ExtendedReport with one report block of 64 KiB or more, encoded by xrBlockBytes (not by the
+// library), with the value the specification assigns to it
+func hugeXRVariant(r *rng, kind int) ([]byte, *rtcp.ExtendedReport) {
+	x := genHugeXR(r, kind)
+	body := be32(x.SenderSSRC)
+	for _, blk := range x.Reports {
+		body = append(body, xrBlockBytes(r, blk)...)
+	}
+	return append(hdrBytes(false, 0, 207, 4+len(body)), body...), x
+}
+
 func reportBytes(rp rtcp.ReceptionReport) []byte {
 	b := be32(rp.SSRC)
 	b = append(b, rp.FractionLost, byte(rp.TotalLost>>16), byte(rp.TotalLost>>8), byte(rp.TotalLost))
